@@ -55,6 +55,10 @@ func (g *genCtx) relName(maxDepth int) string {
 		// names that clean to the destination itself
 		return g.r.pick([]string{"/", "//", "./", ".", "a/..", "a/../", "/.", "b/../."})
 	}
+	if g.hostile && g.r.chance(1, 16) {
+		// names of directories that exist next to the destination
+		return g.r.pick([]string{"../outdir", "../outdir/", "../dest2/", "../", "a/../../outdir/", "../outdir/."})
+	}
 	if g.hostile && g.r.chance(1, 12) {
 		s = "/" + s
 	}
